@@ -177,7 +177,46 @@ def run(tier):
                         v.violation(f"C14:pick-law@{spec.name}", f"system {text} ({mode}): component pick a={ev['a']} p={p} is neither the declared fractions {declared} "
                                                                  f"nor the mass-share law (about {[round(x, 4) for x in share]})", {"system": text})
                     break
+    # ---- systems whose mass the CALLER supplies (System(text, mass)): whatever is accepted must pick every component with the fraction its
+    #      WRITTEN value declares (percentage / 100, or absolute mass / supplied system mass). Isomers: the declared-fraction law is the share law.
+    n_sup = 0
+    iso = ["CCCO", "CC(C)O", "CCOC"]
+    supplied = [
+        ("CCCO.|30%|CC(C)O.|700|", 1000.0, [0.3, 0.7]),             # consistent
+        ("CCCO.|30%|CC(C)O.|700|", 500.0, [0.3, 1.4]),              # the supplied mass contradicts the text (smaller)
+        ("CCCO.|30%|CC(C)O.|700|", 2000.0, [0.3, 0.35]),            # ... (larger)
+        ("CCCO.|20%|CC(C)O.|30%|CCOC.|600|", 1200.0, [0.2, 0.3, 0.5]),
+        ("CCCO.|20%|CC(C)O.|30%|CCOC.|600|", 400.0, [0.2, 0.3, 1.5]),
+        ("CCCO.|250|CC(C)O.|750|", 1000.0, [0.25, 0.75]),
+        ("CCCO.|250|CC(C)O.|750|", 800.0, [0.3125, 0.9375]),
+        ("CCCO.|40%|CC(C)O", 500.0, [0.4, 0.6]),
+    ]
+    for text, S_, declared in supplied:
+        try:
+            sysobj = g.System(text, S_)
+            if not sysobj.generable:
+                continue
+        except Exception:
+            continue          # refused: C12's matter
+        for mode, call in (("iterate", E.iterate_call), ("single", E.single_call)):
+            rng = X.RecordingRNG(11 + common.seed())
+            X.Tap.current = rng
+            try:
+                call(sysobj, rng)
+            except Exception:
+                pass
+            X.Tap.current = None
+            ev = next((e for e in rng.events if e["kind"] == "choice"), None)
+            if ev is None:
+                continue
+            n_sup += 1
+            p = [n / d if d > 0 else -1 for n, d in ev["p"]]
+            if len(p) != len(declared) or any(abs(a - b) > 1e-9 for a, b in zip(p, declared)):
+                v.violation("C14:pick-law-is-not-the-written-fraction:supplied-system-mass",
+                            f"System({text!r}, {S_}) ({mode}) is accepted and picks its components with p={p}; the written values declare the fractions {declared} "
+                            f"(percentage / 100, absolute mass / system mass)", {"system": text, "system_mass": S_})
     v.coverage = {"states": tot_states, "transitions": tot_states, "traces_validated_against_impl": tot_paths, "tree_nodes_validated": tot_nodes,
+                  "systems_with_supplied_mass_picks_checked": n_sup,
                   "systems": len(systems(tier)), "pick_events_with_declared_fraction_law": picks, "polymer_system_picks_checked": n_poly, "samples": samples}
     v.assumptions = ["exact decision for components of fixed molecule mass (mean member mass known exactly); the convergence clause itself is statistical and only backed by frequencies (thorough tier, equal-mass systems)",
                      "mass shares converge to the declared fractions iff the per-molecule pick probability is proportional to fraction / mean member mass"]
